@@ -347,6 +347,9 @@ def r3(ctx, rep):
         a = at.get(op, ad)
         if op in safe_both:
             rep.check(a in ("Both", "Left", "Right"), f"assoc:{op}", f"associativity of {op} is {a}", file=fa["file"], line=fa["l"], fn=fa["path"])
+        elif op in O.get("non_associative", []):
+            rep.check(a == "None", f"assoc:{op}", f"BinaryOperator::{op} is declared {a}-associative; comparisons do not associate in either direction (PostgreSQL rejects `a = b < c`, SQLite reads it as "
+                      "`a = (b < c)`), so an operand that is itself a comparison needs parentheses on BOTH sides: `(a == b) < c` was emitted as `a = b < c`", file=fa["file"], line=fa["l"], fn=fa["path"])
         else:
             rep.check(a == "Left", f"assoc:{op}",
                       f"BinaryOperator::{op} is declared {a}-associative; it is not mathematically associative, so "
@@ -511,7 +514,7 @@ def r5(ctx, rep):
         if last_seg(str(pat_head(arm["pat"]))) == "Equal":
             eq_body = arm["body"]
     bad_rows = []
-    for assoc in ("Left", "Right", "Both"):
+    for assoc in ("Left", "Right", "Both", "None"):
         for is_left in (True, False):
             def atom(t, assoc=assoc, is_left=is_left):
                 if t == "is_left":
@@ -699,15 +702,50 @@ def r7(ctx, rep):
                     if pp is None:
                         break
                     same = ("(left.as_ref() == right.as_ref())", "left.as_ref() == right.as_ref()", "(right.as_ref() == left.as_ref())", "right.as_ref() == left.as_ref()")
-                    if pp.get("k") == "if" and show(pp["c"]) in same and (pp["t"] is cur or guards._contains(pp["t"], cur)):
+                    def has_same(c_):
+                        # the test itself or one conjunct of it
+                        parts = [c_]
+                        while parts and any(x.get("k") == "bin" and x["op"] == "&&" for x in parts):
+                            parts = [y for x in parts for y in ([x["lhs"], x["rhs"]] if x.get("k") == "bin" and x["op"] == "&&" else [x])]
+                        parts = [x["e"] if x.get("k") == "paren" else x for x in parts]
+                        return any(show(x) in same or show(x).strip("()") in [t.strip("()") for t in same] for x in parts)
+                    if pp.get("k") == "if" and has_same(pp["c"]) and (pp["t"] is cur or guards._contains(pp["t"], cur)):
                         ok_g = True
                         break
                     # the same test as the guard of the match arm the result is in
-                    if pp.get("k") == "match" and any(a.get("guard") is not None and show(a["guard"]) in same and (a["body"] is r or guards._contains(a["body"], r)) for a in pp["arms"]):
+                    if pp.get("k") == "match" and any(a.get("guard") is not None and has_same(a["guard"]) and (a["body"] is r or guards._contains(a["body"], r)) for a in pp["arms"]):
                         ok_g = True
                         break
                     cur = pp
                 guarded = guarded and ok_g
+            # ... and only for kinds whose written form IS their value: the guard also names a predicate over the literal kind that accepts nothing but Integer / Float / Boolean
+            kinds_ok = False
+            for r in rets:
+                cur = r
+                while id(cur) in par:
+                    pp = par[id(cur)]
+                    conds = []
+                    if pp.get("k") == "if":
+                        conds.append(pp["c"])
+                    if pp.get("k") == "match":
+                        conds += [a["guard"] for a in pp["arms"] if a.get("guard") is not None]
+                    for c in conds:
+                        for x in walk(c):
+                            if x.get("k") == "call" and len(x.get("a", [])) == 1:
+                                hs = [h for h in syn.fns if h["crate"] == "prqlc" and h["file"] == f["file"] and h["name"] == last_seg(show(x["f"])) and "body" in h]
+                                for h in hs:
+                                    mm_ = [m_ for m_ in walk(h["body"]) if m_.get("k") == "macro" and m_["n"] == "matches"]
+                                    if mm_:
+                                        heads = {last_seg(str(pat_head(a))) for a in pat_alts(mm_[0]["pat"])}
+                                        kinds_ok = kinds_ok or (bool(heads) and heads <= {"Integer", "Float", "Boolean"})
+                            if x.get("k") == "macro" and x["n"] == "matches" and "Literal" in show(x["pat"]):
+                                heads = {last_seg(str(pat_head(a))) for a in pat_alts(x["pat"])}
+                                kinds_ok = kinds_ok or (bool(heads) and heads <= {"Integer", "Float", "Boolean"})
+                    cur = pp
+            rep.check(kinds_ok, f"fold:{name}:value-equality",
+                      f"`{name}` of two literals of the same kind is folded with the derived `==` of Literal, which compares what is WRITTEN: `@10:00 == @10:00:00`, "
+                      "`@2020-01-01T00:00:00Z == @2020-01-01T01:00:00+01:00`, `1days == 24hours` fold to false where the database computes true (and string equality depends on the collation). "
+                      "The fold must be limited to Integer / Float / Boolean literals", file=f["file"], line=line, fn=f["path"])
             rep.check(guarded, f"fold:{name}:same-kind",
                       f"folding `{name}` of two literals must be guarded by `left.as_ref() == right.as_ref()` (same literal kind): "
                       "Rust compares an Integer and a Float literal as different values where SQL compares them numerically",
